@@ -86,6 +86,7 @@ def group_programs():
 
 def pointer_programs(tier, rng):
     progs = straightline_pointer_programs(3 if tier == 'thorough' else 2) + group_programs()
+    progs += [D.Program('binding', ty, ss, tag='dynamic-then-constant') for ty, ss in G.dynamic_then_constant_tail()]
     I = lambda v: ('lit', 'int', v)
     reads = [('ival', 'int'), ('flag', 'bool'), ('sval', 'QString'), ('level', 'int')]
     pes = ptr_exprs(3 if tier == 'thorough' else 2)
@@ -140,17 +141,28 @@ def pointer_programs(tier, rng):
 
 # ----------------------------------------------------------------------------- analysis
 OBS_RE = re.compile(r'observed\[(\d+)\]\.connection = QObject::connect\((a\d+), QOverload<(.*?)>::of\(&([\w:]+)::(\w+)\), this->root_, update\);')
+MAX_UNROLL = 3
 
 
 class TwoState:
-    def __init__(self, prog, hdr, nprog, abstract, concrete_lib=False, fresh_observers=False):
+    """encodes one binding: reference value per state, emitted eval per (state, observer memory)"""
+    def __init__(self, prog, hdr, nprog, abstract, concrete_lib=False):
         self.prog, self.hdr = prog, hdr
         self.P = Prims(abstract, concrete_lib)
         self.env = D.make_env(nprog, prog.target())
+        # pointer-valued properties never designate the owner of the binding: a binding that reads its own target
+        # is a binding loop (asserted by the generated code), not a staleness question
+        self.env.universe = set(D.BASE_OBJECTS)
         self.s1 = R.Store(self.env, 's1_')
         self.s2 = R.Store(self.env, 's2_')
-        self.fresh_observers = fresh_observers
         self.problems = []
+        self.slots = {}
+        self.static = []
+
+    def vnodes(self):
+        """objects whose properties are part of the state (the owner included; it is only excluded as a *value* of
+        pointer properties)"""
+        return [o for o in self.s1.ids if self.env.objects[o] == 'VNode' and (o in self.env.universe or o == self.prog.target())]
 
     def ref_value(self, store):
         """-> (value, defined) of the source in `store` (merged over paths)"""
@@ -173,6 +185,42 @@ class TwoState:
             dfn = z3.Or(dfn, ok)
         return val, dfn
 
+    # ------------------------------------------------------------------------------------------------
+    def fresh_memory(self, tag, disconnected=False):
+        mu = {}
+        for k, sig in self.slots.items():
+            if disconnected:
+                mu[k] = {'obj': z3.IntVal(0), 'valid': FALSE, 'target': z3.IntVal(0), 'sig': sig}
+            else:
+                mu[k] = {'obj': z3.Int(f'{tag}obs{k}.obj'), 'valid': z3.Bool(f'{tag}obs{k}.valid'), 'target': z3.Int(f'{tag}obs{k}.target'), 'sig': sig}
+        return mu
+
+    def invariant(self, mu):
+        """representation invariant of the observer memory: a valid connection listens to the recorded, live object"""
+        cs = []
+        for k, o in mu.items():
+            cs.append(z3.Implies(o['valid'], z3.And(o['target'] == o['obj'], z3.Or([o['target'] == self.s1.oid[x] for x in self.vnodes()]))))
+        return z3.And(cs) if cs else TRUE
+
+    def eval_step(self, store, mu, tag):
+        """runs the emitted eval in `store` from memory `mu` -> (results, bad, merged memory afterwards)"""
+        f = self.hdr.funcs['eval' + self.prog.suffix()]
+        ex = cxx.Exec(f, self.env, self.P, store, 'root', E.ENUMS, observers={k: dict(v) for k, v in mu.items()}, tag=tag)
+        results, bad = ex.run({})
+        merged = {}
+        for k in self.slots:
+            cur = None
+            for r in results:
+                o = r['obs'].get(k, mu[k])
+                if cur is None:
+                    cur = dict(o)
+                else:
+                    cur = {'obj': z3.If(r['pc'], o['obj'], cur['obj']), 'valid': z3.If(r['pc'], o['valid'], cur['valid']),
+                           'target': z3.If(r['pc'], o['target'], cur['target']), 'sig': cur['sig']}
+            merged[k] = cur if cur is not None else dict(mu[k])
+            merged[k]['sig'] = self.slots[k]
+        return results, bad, merged
+
     def build(self):
         prog, hdr = self.prog, self.hdr
         suffix = prog.suffix()
@@ -180,7 +228,6 @@ class TwoState:
         if f is None:
             return None
         cls = self.env.cls('VNode')
-        # observer slots and their signals
         slots = {}
         for ln in f.body:
             m = OBS_RE.search(ln)
@@ -193,21 +240,9 @@ class TwoState:
         size = hdr.observer_sizes.get(suffix, 0)
         if slots and max(slots) >= size:
             self.problems.append(f'observer index {max(slots)} outside observed{suffix}_[{size}]')
-        mu = {}
-        self.mu_wf = []
-        for k, sig in slots.items():
-            o, c = z3.Int(f'm_obs{k}.obj'), z3.Bool(f'm_obs{k}.conn')
-            mu[k] = {'obj': o, 'conn': c, 'sig': sig, 'init': True, 'obj0': o, 'conn0': c}
-            # representation invariant: a valid connection is to the recorded (live) object
-            self.mu_wf.append(z3.Implies(c, z3.Or([o == self.s1.oid[x] for x in self.s1.universe() if self.env.objects[x] == 'VNode'])))
-            if self.fresh_observers:
-                self.mu_wf.append(z3.Not(c))
-        ex = cxx.Exec(f, self.env, self.P, self.s1, 'root', E.ENUMS, observers=mu, tag='i1_')
-        results, bad = ex.run({})
-        self.impl_results, self.impl_bad = results, bad
-        # static connections
-        static = []
+        self.slots = slots
         gsuffix = prog.group_suffix() if prog.group is not None else suffix
+        static = []
         for sender, c, sig, ov in hdr.static_connections(gsuffix):
             tok, j = cxx.scan_operand(sender, 0)
             if tok[0] == 'obj':
@@ -218,8 +253,6 @@ class TwoState:
                 raise cxx.Unsupported('static sender ' + sender)
             static.append((o, sig, ov))
         self.static = static
-        self.slots = slots
-        # parsed fact: overload rule for every connected notify signal
         for (o, sig, ov) in static + [(None, s[1], s[2]) for s in slots.values()]:
             cands = cls.signals_named(sig)
             if not cands:
@@ -229,7 +262,6 @@ class TwoState:
                 full = cls.notify_signal_of(pn)
                 if full is None or ov != full.args:
                     self.problems.append(f'{sig}: connected overload {ov}, documented rule picks {full.args if full else None}')
-        # setup(): every binding has setup* and update*, all setups before all updates
         calls = hdr.setup_calls
         if calls.count('setup' + gsuffix) != 1 or calls.count('update' + gsuffix) != 1:
             self.problems.append(f'setup() does not call setup{gsuffix}/update{gsuffix} exactly once')
@@ -239,7 +271,6 @@ class TwoState:
             if tgt != f'this->ui_->{prog.target()}' or setter != want or evalfn != 'eval' + suffix:
                 self.problems.append(f'update{suffix} writes {tgt}->{setter}({evalfn}())')
         else:
-            # grouped value: update<G>() writes target->setG(evalG(target->g())), evalG applies this member
             g, m = prog.group[0], prog.group[1]
             gp = cls.prop(g)
             ub = [l.strip() for l in hdr.funcs['update' + gsuffix].body]
@@ -250,12 +281,14 @@ class TwoState:
             want_m = f'a.set{m[0].upper() + m[1:]}(this->eval{suffix}());'
             if want_m not in eb or 'return a;' not in eb:
                 self.problems.append(f'eval{gsuffix} does not apply {want_m}')
-        return ex
+        return True
 
-    def observed_after(self, r):
-        """-> {(obj id, prop): condition under which the pair is observed after this emitted path}"""
+    # ------------------------------------------------------------------------------------------------
+    def observed_pairs(self, mu_after):
+        """-> {(obj id, prop): condition under which the pair is observed}"""
         cls = self.env.cls('VNode')
         obs = {}
+
         def add(o, p, c):
             obs[(o, p)] = z3.Or(obs[(o, p)], c) if (o, p) in obs else c
         for (o, sig, ov) in self.static:
@@ -264,137 +297,210 @@ class TwoState:
             for p in cls.prop_of_signal(sig):
                 add(o, p, TRUE)
         for k, (c, sig, ov) in self.slots.items():
-            ob = r['obs'][k]
+            ob = mu_after[k]
             for p in cls.prop_of_signal(sig):
-                for o in self.s1.universe():
-                    if self.env.objects[o] == 'VNode':
-                        add(o, p, z3.And(ob['conn'], ob['obj'] == self.s1.oid[o]))
+                for o in self.vnodes():
+                    add(o, p, z3.And(ob['valid'], ob['target'] == self.s1.oid[o]))
         return obs
 
-    def query(self):
+    def agree_on_observed(self, sa, sb, obs):
+        cls = self.env.cls('VNode')
+        cs = []
+        for o in self.vnodes():
+            for pd in cls.all_props().values():
+                if pd.ty == 'QFont':
+                    continue
+                same = equal(sa.get(o, pd.name), sb.get(o, pd.name))
+                if pd.constant:
+                    cs.append(same)
+                elif (o, pd.name) in obs:
+                    cs.append(z3.Implies(obs[(o, pd.name)], same))
+        bound = G.TARGET[self.prog.ty] if self.prog.group is None else None
+        if bound:
+            cs.append(equal(sa.get(self.prog.target(), bound), sb.get(self.prog.target(), bound)))
+        return cs
+
+    def constants_agree(self, sa, sb):
+        cls = self.env.cls('VNode')
+        return [equal(sa.get(o, pd.name), sb.get(o, pd.name)) for o in self.vnodes() for pd in cls.all_props().values() if pd.constant]
+
+    def inductive_queries(self):
+        """-> (staleness query, invariant-preservation query), each (constraints, wf)"""
+        mu = self.fresh_memory('m_')
+        results, bad, mu2 = self.eval_step(self.s1, mu, 'i1_')
+        self.impl_results, self.impl_bad = results, bad
         v1, d1 = self.ref_value(self.s1)
         v2, d2 = self.ref_value(self.s2)
         if v1 is None:
             return None
-        cls = self.env.cls('VNode')
-        pairs = [(o, p.name, p) for o in self.s1.universe() if self.env.objects[o] == 'VNode' for p in cls.all_props().values() if p.ty != 'QFont']
-        disj = []
-        for r in self.impl_results:
-            obs = self.observed_after(r)
-            agree = []
-            for (o, pn, pd) in pairs:
-                a, b = self.s1.get(o, pn), self.s2.get(o, pn)
-                same = equal(a, b)
-                if pd.constant:
-                    agree.append(same)                     # constant properties never change
-                elif (o, pn) in obs:
-                    agree.append(z3.Implies(obs[(o, pn)], same))
-            disj.append(z3.And(r['pc'], *agree))
-        nobad = z3.Not(z3.Or([c for c, _ in self.impl_bad])) if self.impl_bad else TRUE
         self.v1, self.v2 = v1, v2
-        core = [d1, d2, nobad, z3.Not(equal(v1, v2)), z3.Or(disj) if disj else FALSE]
+        nobad = z3.Not(z3.Or([c for c, _ in bad])) if bad else TRUE
+        obs = self.observed_pairs(mu2)
+        wf = list(self.s1.wf()) + list(self.s2.wf())
+        inv = self.invariant(mu)
+        stale = [inv, d1, d2, nobad, z3.Not(equal(v1, v2))] + self.agree_on_observed(self.s1, self.s2, obs)
         if self.problems:
-            # a wrong/missing static fact is exposed by any defined state pair with different values
-            core = [d1, d2, z3.Not(equal(v1, v2))]
-        wf = list(self.s1.wf()) + list(self.s2.wf()) + self.mu_wf
-        # the bound target itself is written by update(): it is not an independent input
-        bound = G.TARGET[self.prog.ty]
-        wf.append(equal(self.s1.get(self.prog.target(), bound), self.s2.get(self.prog.target(), bound)))
-        return core, wf
+            stale = [d1, d2, z3.Not(equal(v1, v2))]
+        preserve = [inv, d1, nobad, z3.Not(self.invariant(mu2))]
+        return (stale, wf), (preserve, list(self.s1.wf()))
+
+    def unrolled_query(self, k):
+        """history from a fresh (all disconnected) memory: k runs of eval in states t0..t(k-1), then an un-notified
+        change to state tk.  -> (constraints, wf, stores)"""
+        stores = [R.Store(self.env, f't{i}_') for i in range(k + 1)]
+        mu = self.fresh_memory('u_', disconnected=True)
+        cs, wf = [], []
+        self.unrolled_obs = []
+        for i in range(k):
+            results, bad, mu = self.eval_step(stores[i], mu, f'u{i}_')
+            self.unrolled_obs.append(self.observed_pairs(mu))
+            v, d = self.ref_value(stores[i])
+            cs.append(d)
+            if bad:
+                cs.append(z3.Not(z3.Or([c for c, _ in bad])))
+            if i + 1 < k:
+                cs += self.constants_agree(stores[i], stores[i + 1])
+        vlast, dlast = self.ref_value(stores[k - 1])
+        vnew, dnew = self.ref_value(stores[k])
+        obs = self.observed_pairs(mu)
+        cs += [dnew, z3.Not(equal(vlast, vnew))]
+        if not self.problems:
+            cs += self.agree_on_observed(stores[k - 1], stores[k], obs)
+        else:
+            cs += self.constants_agree(stores[k - 1], stores[k])
+        for st in stores:
+            wf += list(st.wf())
+        self.unrolled_values = (vlast, vnew)
+        return cs, wf, stores
+
+
+def _check(cs, wf, stats):
+    import time
+    s = z3.Solver()
+    s.set('timeout', D.Z3_TIMEOUT_MS)
+    s.add(*wf)
+    s.add(*cs)
+    t0 = time.time()
+    r = s.check()
+    stats['queries'] += 1
+    stats['solver_s'] += time.time() - t0
+    return r, s
 
 
 def decide(prog, hdr, nprog, stats):
-    total = 0.0
     for abstract in (True, False):
         ts = TwoState(prog, hdr, nprog, abstract)
         if ts.build() is None:
             return D.Verdict('no-function')
-        q = ts.query()
+        q = ts.inductive_queries()
         if q is None:
             return D.Verdict('no-value')
-        core, wf = q
-        s = z3.Solver()
-        s.set('timeout', D.Z3_TIMEOUT_MS)
-        s.add(*wf)
-        s.add(*core)
-        import time
-        t0 = time.time()
-        r = s.check()
-        secs = time.time() - t0
-        total += secs
-        stats['queries'] += 1
-        stats['solver_s'] += secs
+        (stale, wf), (preserve, wfp) = q
+        r, s = _check(stale, wf, stats)
         if r == z3.unsat:
-            stats['stage1_unsat' if abstract else 'stage2_unsat'] += 1
-            return D.Verdict('unsat', stage=1 if abstract else 2, secs=total, an=ts)
+            # the step is only inductive if the emitted block re-establishes the memory invariant
+            rp, sp = _check(preserve, wfp, stats)
+            if rp == z3.unsat or not ts.slots:
+                stats['stage1_unsat' if abstract else 'stage2_unsat'] += 1
+                return D.Verdict('unsat', stage=1 if abstract else 2, an=ts)
+            if abstract:
+                continue
+            if rp != z3.sat:
+                return D.Verdict('unknown', stage=2, why='invariant preservation: ' + sp.reason_unknown(), an=ts)
+            # not inductive: decide histories of <= MAX_UNROLL updates from a fresh memory instead (bounded)
+            stats['invariant_not_inductive(bounded unrolling used)'] += 1
+            for k in range(1, MAX_UNROLL + 1):
+                cs, wfk, _ = ts.unrolled_query(k)
+                rk, sk = _check(cs, wfk, stats)
+                if rk == z3.sat:
+                    return D.Verdict('sat', model=sk.model(), stage=2, an=ts)
+                if rk != z3.unsat:
+                    return D.Verdict('unknown', stage=2, why=sk.reason_unknown(), an=ts)
+            stats['stage2_unsat'] += 1
+            return D.Verdict('unsat', stage=2, an=ts)
         if abstract:
             continue
         if r == z3.sat:
-            return D.Verdict('sat', model=s.model(), stage=2, secs=total, an=ts)
-        return D.Verdict('unknown', stage=2, secs=total, why=s.reason_unknown(), an=ts)
+            return D.Verdict('sat', model=s.model(), stage=2, an=ts)
+        return D.Verdict('unknown', stage=2, why=s.reason_unknown(), an=ts)
 
 
 def replay_history(prog, doc, cli, hdr, d):
-    """re-solve from fresh observers with the mock's library model, then run: build s, setup(), apply the
-    un-notified changes s -> s' through the real setters, compare the target with the source value in s'"""
-    # a document holding only this binding: setup() must not run the other programs of the batch
+    """finds a concrete history from a FRESH support object (k = 1..3 updates, mock's library model) and runs it:
+    build t0, setup(), apply the changes t0->t1->...->tk through the real setters, compare the target with the
+    source value in tk"""
     import copy
     prog = copy.copy(prog)
     doc, cli, rej = D.translate(C.build_native(), os.path.join(d, 'cli'), [prog])
     if doc is None:
         return None, {'error': 'single-binding document rejected: %s' % rej}
     hdr = cxx.Header(cli.header)
-    ts = TwoState(prog, hdr, 1, False, concrete_lib=True, fresh_observers=True)
+    ts = TwoState(prog, hdr, 1, False, concrete_lib=True)
     ts.build()
-    core, wf = ts.query()
-    s = z3.Solver()
-    s.set('timeout', D.Z3_TIMEOUT_MS)
-    s.add(*wf)
-    s.add(*core)
-    if s.check() != z3.sat:
-        return None, {'error': 'not sat from a fresh observer memory / concrete library model'}
-    m = s.model()
+    m = stores = None
+    for k in range(1, MAX_UNROLL + 1):
+        cs, wf, stores = ts.unrolled_query(k)
+        s = z3.Solver()
+        s.set('timeout', D.Z3_TIMEOUT_MS)
+        s.add(*wf)
+        s.add(*cs)
+        if s.check() == z3.sat:
+            m = s.model()
+            break
+    if m is None:
+        return None, {'error': f'no history of <= {MAX_UNROLL} updates from a fresh support object exhibits it (concrete library model)'}
     ids = ts.s1.ids
     cls = ts.env.cls('VNode')
-    st1, st2 = {}, {}
-    for (o, pn), v in ts.s1.base.vals.items():
-        ty = cls.prop(pn).ty
-        st1[(o, pn)] = (RP.z3_to_py(v, ty, m, ids), ty)
-        st2[(o, pn)] = (RP.z3_to_py(ts.s2.get(o, pn), ty, m, ids), ty)
+    keys = sorted(set(kk for st in stores for kk in st.base.vals))
+    states = []
+    for st in stores:
+        states.append({(o, pn): (RP.z3_to_py(st.get(o, pn), cls.prop(pn).ty, m, ids), cls.prop(pn).ty) for (o, pn) in keys if cls.prop(pn).ty != 'QFont'})
     ty = prog.ty
-    exp = RP.canon(RP.z3_to_py(ts.v2, ty, m, ids), ty)
-    exp1 = RP.canon(RP.z3_to_py(ts.v1, ty, m, ids), ty)
-    changes = [(k, st2[k]) for k in sorted(st1) if RP.canon(*st1[k]) != RP.canon(*st2[k])]
-    ch = dict(changes)
-    nondefault = lambda k: RP.canon(*st1[k]) not in ('I:0', 'U:0', 'B:false', 'S:', 'L[]', 'P:null', 'D:nan', 'D:0000000000000000')
-    info = {'model': {'un-notified changes': {f'{o}.{p}': f'{RP.canon(*st1[(o, p)])} -> {RP.canon(*st2[(o, p)])}' for (o, p) in sorted(ch)},
-                      'initial state (non-default values)': {f'{o}.{p}': RP.canon(*st1[(o, p)]) for (o, p) in sorted(st1) if nondefault((o, p))}},
-            'expected': f'{exp} (value of the source in the new state; was {exp1})', 'problems': ts.problems}
+    vlast, vnew = ts.unrolled_values
+    exp = RP.canon(RP.z3_to_py(vnew, ty, m, ids), ty)
+    exp1 = RP.canon(RP.z3_to_py(vlast, ty, m, ids), ty)
+    nondefault = lambda v: RP.canon(*v) not in ('I:0', 'U:0', 'B:false', 'S:', 'L[]', 'P:null', 'D:nan', 'D:0000000000000000')
+    steps = []
+    for i in range(1, len(states)):
+        steps.append({f'{o}.{p}': f'{RP.canon(*states[i - 1][(o, p)])} -> {RP.canon(*states[i][(o, p)])}' for (o, p) in sorted(states[i]) if RP.canon(*states[i - 1][(o, p)]) != RP.canon(*states[i][(o, p)])})
+    info = {'model': {'initial state (non-default values)': {f'{o}.{p}': RP.canon(*v) for (o, p), v in sorted(states[0].items()) if nondefault(v)},
+                      'changes per step (the last step is the un-notified one)': steps},
+            'expected': f'{exp} (value of the source in the final state; was {exp1})', 'problems': ts.problems}
     RP.prepare(d, 'Doc', ts.env, cli.header)
     with open(os.path.join(d, 'Doc.qml'), 'w') as f:
         f.write(doc.text)
-    lines = RP.driver_prologue('Doc', ts.env, st1)
+    lines = RP.driver_prologue('Doc', ts.env, states[0])
     lines.append('        sup.setup();')
-    tprop = cls.prop(G.TARGET[ty])
-    lines.append(f'        std::cout << "AFTER-SETUP " << verif::show({prog.target()}.{tprop.read}()) << "\\n";')
-    for (o, pn), (v, t) in changes:
-        w = cls.prop(pn).write
-        if w is None:
-            return None, dict(info, error=f'{o}.{pn} has no setter')
-        lines.append(f'        {o}.{w}({RP.cxx_lit(v, t)});')
-    lines.append(f'        std::cout << "RESULT " << verif::show({prog.target()}.{tprop.read}()) << "\\n";')
+    tprop = cls.prop(G.TARGET[ty]) if prog.group is None else None
+    show = (lambda: f'verif::show({prog.target()}.{tprop.read}())') if tprop else (lambda: f'verif::show({prog.target()}.font().{prog.group[1]}())')
+    lines.append(f'        std::cout << "AFTER-SETUP " << {show()} << "\\n";')
+    bound = (prog.target(), G.TARGET[ty]) if prog.group is None else None
+    for i in range(1, len(states)):
+        obs_i = ts.unrolled_obs[i - 1]
+        is_obs = lambda k2: (k2 in obs_i) and z3.is_true(m.eval(obs_i[k2], model_completion=True))
+        # un-observed pairs first, observed ones last: the last update of the step then sees the complete state
+        for (o, pn) in sorted(states[i], key=lambda k2: (is_obs(k2), k2)):
+            if (o, pn) == bound:
+                continue
+            v, t = states[i][(o, pn)]
+            if RP.canon(v, t) != RP.canon(*states[i - 1][(o, pn)]):
+                w = cls.prop(pn).write
+                if w is None:
+                    return None, dict(info, error=f'{o}.{pn} has no setter')
+                lines.append(f'        {o}.{w}({RP.cxx_lit(v, t)});')
+        lines.append(f'        std::cout << "STEP{i} " << {show()} << "\\n";')
+    lines.append(f'        std::cout << "RESULT " << {show()} << "\\n";')
     lines += RP.driver_epilogue()
     out, err = RP.compile_run(d, lines)
     if out is None:
         info['actual'] = 'emitted header does not compile against the API generated from the same type information'
         return (True if ts.problems else None), dict(info, error=err)
     got = [l[7:] for l in out.split('\n') if l.startswith('RESULT ')]
-    info['actual'] = ' / '.join(l for l in out.split('\n') if l.startswith(('AFTER-SETUP', 'RESULT', 'UNREACHABLE', 'ABORT')))
+    info['actual'] = ' / '.join(l for l in out.split('\n') if l.startswith(('AFTER-SETUP', 'STEP', 'RESULT', 'UNREACHABLE', 'ABORT')))
     info['summary'] = 'bound target is stale after an un-notified change'
     info['site'] = 'dependency tracking'
     if not got:
-        crashed = 'UNREACHABLE' in out or 'ABORT' in out
-        return (True if crashed else None), dict(info, error='driver produced no result: ' + err[-300:])
+        return None, dict(info, error='driver produced no result (' + info['actual'] + '): ' + err[-300:])
     return got[0] != exp, info
 
 
@@ -455,7 +561,7 @@ class C02Suite(S.Suite):
             st['ill_typed_late'] += 1
             return
         if v.status in ('no-function', 'no-value'):
-            if v.status == 'no-function' and L.has_dynamic(p.body) if p.form == 'expr' else any_dynamic(p.body):
+            if v.status == 'no-function' and (L.has_dynamic(p.body) if p.form == 'expr' else any_dynamic(p.body)):
                 self.missing_function(p, doc, cli)
                 return
             st['folded_to_constant(no function)'] += 1
@@ -485,6 +591,8 @@ class C02Suite(S.Suite):
             return
         if v.status == 'unknown':
             st['undecided'] += 1
+            st['programs'] -= 1
+            self.by_tag[p.tag] -= 1
             self.undecided.append({'qml': p.source(), 'why': v.why})
             return
         st['sat'] += 1
